@@ -594,20 +594,95 @@ fn run_case(line: &str) -> Result<String> {
         s
     };
     let log = sh.log.lock().unwrap().clone();
-    // plan time of a prune = the newest mark time in the index it wrote, if that is later than its pack listing
-    let mut plan_ms: BTreeMap<usize, i64> = BTreeMap::new();
-    for e in &log {
-        if matches!(e.kind, Kind::Write) && e.tpe == FileType::Index && actors[e.actor].kind == 'P' {
+    // ---- mark times, normalised by ORDER of logged operations (no wall-clock tolerance):
+    // a mark whose time lies between the previous logged operation of the SAME prune and the logged index
+    // write that publishes it was "stamped for this write" (repaired source: release_removals stamps right
+    // before finalize) and is reported as the tick of that write; a mark that lies between the prune's pack
+    // listing and its next operation, but not in the first range, carries the PLAN time (unrepaired source) and
+    // moves the tick of the listing to itself; any other mark (carried over) was classified when it was made.
+    let prev_op_ms = |li: usize, a: usize| -> i64 {
+        log[..li].iter().rev().find(|x| x.actor == a).map_or(base_ms, |x| x.ms)
+    };
+    let next_op_ms = |li: usize, a: usize| -> i64 {
+        log[li + 1..].iter().find(|x| x.actor == a).map_or(i64::MAX, |x| x.ms)
+    };
+    let mut write_of_mark: BTreeMap<i64, usize> = BTreeMap::new(); // mark time (ms) -> log index of its index write
+    let mut plan_ms: BTreeMap<usize, i64> = BTreeMap::new(); // prune -> plan time carried by marks (unrepaired shape)
+    for (li, e) in log.iter().enumerate() {
+        if matches!(e.kind, Kind::Write) && e.ok && e.tpe == FileType::Index && actors[e.actor].kind == 'P' {
             if let Some(f) = index_files.get(e.id.to_hex().as_str()) {
+                let lo = prev_op_ms(li, e.actor) - 2;
                 for p in &f.packs_to_delete {
                     if let Some(tm) = p.time {
-                        let m = plan_ms.entry(e.actor).or_insert(0);
-                        *m = (*m).max(tm.as_millisecond());
+                        let tm = tm.as_millisecond();
+                        if write_of_mark.contains_key(&tm) {
+                            continue;
+                        }
+                        if lo <= tm && tm <= e.ms {
+                            let _ = write_of_mark.insert(tm, li);
+                        } else {
+                            let m = plan_ms.entry(e.actor).or_insert(0);
+                            *m = (*m).max(tm);
+                        }
                     }
                 }
             }
         }
     }
+    // tick of every logged event (pass 1), so that a normalised mark can name the tick of its write
+    let mut ev_tick: Vec<i64> = vec![0; log.len()];
+    {
+        let mut cur = 0i64;
+        let mut seen_lp: BTreeSet<usize> = BTreeSet::new();
+        for (li, e) in log.iter().enumerate() {
+            let a = e.actor;
+            if actors[a].kind == 'I' || !e.ok {
+                ev_tick[li] = cur;
+                continue;
+            }
+            let mut ms = e.ms;
+            if actors[a].kind == 'P' && matches!(e.kind, Kind::List) && e.tpe == FileType::Pack && seen_lp.insert(a) {
+                if let Some(pm) = plan_ms.get(&a) {
+                    if e.ms - 2 <= *pm && *pm <= next_op_ms(li, a) {
+                        ms = (*pm).max(e.ms);
+                    }
+                }
+            }
+            cur = cur.max(tick(ms));
+            ev_tick[li] = cur;
+        }
+    }
+    // A prune that deleted a pack started at or after `stamp + keep_delete`; the model sees the stamp at the tick
+    // of the index write that published it, which is later than the stamp by the duration of that write.  A prune
+    // that started inside this short window (real: expired, model clock: not yet) cannot be replayed faithfully:
+    // the case is reported as timing-ambiguous instead of being compared.
+    let mut ambiguous = false;
+    for (a2, info) in actors.iter().enumerate() {
+        if info.kind != 'P' {
+            continue;
+        }
+        let removed: BTreeSet<String> = log
+            .iter()
+            .filter(|x| x.actor == a2 && x.ok && matches!(x.kind, Kind::Remove) && x.tpe == FileType::Pack)
+            .map(|x| x.id.to_hex().to_string())
+            .collect();
+        let Some(first) = log.iter().find(|x| x.actor == a2) else { continue };
+        if removed.is_empty() {
+            continue;
+        }
+        for f in index_files.values() {
+            for p in &f.packs_to_delete {
+                if removed.contains(p.id.to_hex().as_str()) {
+                    if let Some(li1) = p.time.and_then(|t| write_of_mark.get(&t.as_millisecond())) {
+                        if *li1 < log.len() && log[*li1].actor != a2 && first.ms < log[*li1].ms + info.kd_ms + 10 && info.kd_ms > 0 {
+                            ambiguous = true;
+                        }
+                    }
+                }
+            }
+        }
+    }
+    let mark_tick = |tm: i64| -> i64 { write_of_mark.get(&tm).map_or_else(|| tick(tm), |li| ev_tick[*li]) };
     let mut toks: Vec<String> = Vec::new();
     let mut started: BTreeSet<usize> = BTreeSet::new();
     let mut listed_packs: BTreeSet<usize> = BTreeSet::new();
@@ -624,16 +699,8 @@ fn run_case(line: &str) -> Result<String> {
             }
             continue;
         }
-        let mut ms = e.ms;
-        if info.kind == 'P' && matches!(e.kind, Kind::List) && e.tpe == FileType::Pack && !listed_packs.contains(&a) {
-            if let Some(pm) = plan_ms.get(&a) {
-                if tick(*pm) >= cur_tick && *pm <= e.ms + 2000 && *pm >= e.ms - 50 {
-                    ms = *pm;
-                }
-            }
-        }
-        if tick(ms) > cur_tick {
-            cur_tick = tick(ms);
+        if ev_tick[li] > cur_tick {
+            cur_tick = ev_tick[li];
             toks.push(format!("T {cur_tick}"));
         }
         if started.insert(a) {
@@ -681,7 +748,7 @@ fn run_case(line: &str) -> Result<String> {
                     s.push_str(&format!(
                         " {} {} {}",
                         pn.get(p.id.to_hex().as_str()),
-                        p.time.map_or(-1, |t| tick(t.as_millisecond())),
+                        p.time.map_or(-1, |t| mark_tick(t.as_millisecond())),
                         blobs_s(&mut bn, &bl)
                     ));
                 }
@@ -729,7 +796,7 @@ fn run_case(line: &str) -> Result<String> {
             let _ = unm.insert((pn.get(p.id.to_hex().as_str()), cv(&mut bn, p)));
         }
         for p in &f.packs_to_delete {
-            let _ = mk.insert((pn.get(p.id.to_hex().as_str()), p.time.map_or(-1, |t| tick(t.as_millisecond())), cv(&mut bn, p)));
+            let _ = mk.insert((pn.get(p.id.to_hex().as_str()), p.time.map_or(-1, |t| mark_tick(t.as_millisecond())), cv(&mut bn, p)));
         }
     }
     fin.push_str(" ; unm");
@@ -775,7 +842,8 @@ fn run_case(line: &str) -> Result<String> {
     };
     let maxbk = actors.iter().filter(|i| i.kind == 'B').map(|i| i.end_ms - i.start_ms).max().unwrap_or(0);
     let head = format!(
-        "ok scen={scenario} variant={variant} maxbk={maxbk} kdms={kd_ms} firstA={first_a} parkopA={park_a} parkopB={park_b} errF={} A={}{} B={}{} parkedA={} parkedB={} durA={} durB={} kd={} further={} clean={} badrestore={} nsnaps={} errA={} errB={}",
+        "ok scen={scenario} variant={variant} maxbk={maxbk} kdms={kd_ms} ambig={} firstA={first_a} parkopA={park_a} parkopB={park_b} errF={} A={}{} B={}{} parkedA={} parkedB={} durA={} durB={} kd={} further={} clean={} badrestore={} nsnaps={} errA={} errB={}",
+        u8::from(ambiguous),
         if actors[further].err.is_empty() { "-" } else { &actors[further].err },
         ia.kind,
         u8::from(ia.ok),
